@@ -8,4 +8,6 @@ mkdir -p .bin .work evidence replays
 (cd engine && go vet ./... >/dev/null)
 bash /verif/bin/build.sh plain >/dev/null
 bash /verif/bin/build.sh race >/dev/null
+# memnet (the environment model of all HTTP checks) against the real net/http stack; informational
+bash /verif/bin/conformance.sh || echo "conformance run reported a difference (informational, see above)"
 echo setup-ok
